@@ -3,6 +3,7 @@
 usage: benign_transform.py <mode> <dest>      mode: unparse | rename | inline | introduce
   inline    : every alias local (`dae = system.dae`, see engine/alpha.py) is inlined at its uses
   introduce : in every method, reads of `self.system` / `self.config` / `self.system.dae` go through a new local alias
+  flip      : every single-operator comparison `a < b` / `a <= b` is written `b > a` / `b >= a` (and vice versa)
   unparse : every andes/**/*.py is replaced by ast.unparse(ast.parse(text)) (comments and layout gone, line numbers shift)
   rename  : additionally every function-local variable (assigned in the function, not a parameter, not global/nonlocal, not
             captured by a nested function or lambda, not used via locals()/eval) gets the suffix `_r`
@@ -125,6 +126,19 @@ def do_introduce(fn):
     return count
 
 
+class Flip(ast.NodeTransformer):
+    def __init__(self):
+        self.n = 0
+
+    def visit_Compare(self, n):
+        self.generic_visit(n)
+        swap = {ast.Lt: ast.Gt, ast.LtE: ast.GtE, ast.Gt: ast.Lt, ast.GtE: ast.LtE}
+        if len(n.ops) == 1 and type(n.ops[0]) in swap:
+            self.n += 1
+            return ast.copy_location(ast.Compare(left=n.comparators[0], ops=[swap[type(n.ops[0])]()], comparators=[n.left]), n)
+        return n
+
+
 n_files = n_ren = 0
 for dp, dn, fns in os.walk(os.path.join(dest, "andes")):
     for f in fns:
@@ -137,6 +151,11 @@ for dp, dn, fns in os.walk(os.path.join(dest, "andes")):
             for node in ast.walk(tree):
                 if isinstance(node, (ast.FunctionDef, ast.AsyncFunctionDef)):
                     n_ren += do_inline(node) if mode == "inline" else do_introduce(node)
+            ast.fix_missing_locations(tree)
+        if mode == "flip":
+            fl = Flip()
+            tree = fl.visit(tree)
+            n_ren += fl.n
             ast.fix_missing_locations(tree)
         if mode == "rename":
             for node in ast.walk(tree):
